@@ -953,6 +953,14 @@ impl Compiler {
         // Jump to finally (if exists) or end
         let jump_after_try = self.builder.emit_jump();
 
+        // While the catch body runs, this statement's handler is off the run-time try stack,
+        // unless a finally block keeps a stand-in there; the finally block itself always runs
+        // without it. Loops compiled in those blocks must see the depth they will run at.
+        let has_finalizer = try_stmt.finalizer.is_some();
+        if !has_finalizer {
+            self.try_depth -= 1;
+        }
+
         // Catch handler
         let catch_start = self.builder.current_offset();
         if let Some(handler) = &try_stmt.handler {
@@ -992,6 +1000,10 @@ impl Compiler {
 
         // Jump to finally (if exists) or end
         let jump_after_catch = self.builder.emit_jump();
+
+        if has_finalizer {
+            self.try_depth -= 1;
+        }
 
         // Finally handler
         let finally_start = self.builder.current_offset();
@@ -1041,8 +1053,6 @@ impl Compiler {
                 0
             },
         );
-
-        self.try_depth -= 1;
 
         Ok(())
     }
